@@ -99,7 +99,7 @@ def wrap(kt, construct, list_kids):
     return lst
 
 
-def cblock_node(kt, names, one_line=True, semi=True):
+def cblock_node(kt, names, one_line=True, semi=True, edge=' '):
     """`{ a; b }` as the parser builds it"""
     sp = lambda t: Node(kt.k('Space'), text=Str.lit(t))
     code = []
@@ -109,7 +109,7 @@ def cblock_node(kt, names, one_line=True, semi=True):
                 code.append(Node(kt.k('Semicolon'), text=Str.lit(';')))
             code.append(sp(' ' if one_line else '\n'))
         code.append(Node(kt.k('Ident'), text=Str.lit(nm)))
-    return Node(kt.k('CodeBlock'), children=[Node(kt.k('LeftBrace'), text=Str.lit('{')), sp(' '), Node(kt.k('Code'), children=code), sp(' '),
+    return Node(kt.k('CodeBlock'), children=[Node(kt.k('LeftBrace'), text=Str.lit('{')), sp(edge), Node(kt.k('Code'), children=code), sp(edge),
                                              Node(kt.k('RightBrace'), text=Str.lit('}'))])
 
 
@@ -343,7 +343,7 @@ def source_of(info):
 
 
 def confirm(S, info):
-    body = source_of(info)
+    body = content_source(info) if info.get('construct') == 'content' else source_of(info)
     for src in ([body + '\n'] if not info.get('suppressed') else ['text ' + body + ' more\n']):
         if S.driver.call('erroneous', hexs(src))[1] == '1':
             continue
@@ -377,7 +377,7 @@ def report(S, prop, found):
             groups.setdefault((lab, role_of(info)), []).append(info)
     for (lab, role), infos in sorted(groups.items()):
         hit = None
-        for info in sorted(infos, key=lambda i: len(i.get('tokens', [])))[:10]:
+        for info in sorted(infos, key=lambda i: len(i.get('tokens', i.get('atoms', []))))[:10]:
             w = confirm(S, info)
             if w:
                 hit = (info, w)
@@ -387,3 +387,185 @@ def report(S, prop, found):
             S.violation(key, '%s: %s' % (key, hit[1]['what']), dict(api=hit[1], model=hit[0]))
         else:
             S.inconclusive.append('%s: no solver model reproduced natively (%r)' % (key, infos[0]))
+
+
+# ---------------------------------------------------------------------------------------------------------------
+# content blocks: `f[ .. ]` with words, embedded code and blanks / line breaks / paragraph breaks
+
+M_ATOMS = ['w', 'hx', 'hb']          # a word, `#x`, `#{a; b}`
+M_GAPS = ['', ' ', '\n', '\n\n']     # nothing, blank, line break, paragraph break
+
+
+def markup_sequences(n_atoms, atoms=M_ATOMS, gaps=M_GAPS):
+    """atoms separated by gaps, with a gap at both ends; lexically sane (no two words / `#x` + word glued together)"""
+    for ats in itertools.product(atoms, repeat=n_atoms):
+        for gs in itertools.product(gaps, repeat=n_atoms + 1):
+            ok = True
+            for i in range(1, n_atoms):
+                if gs[i] == '' and ats[i] == 'w' and ats[i - 1] in ('w', 'hx'):
+                    ok = False           # `ab` is one word, `#xw` one identifier
+                if gs[i] == '' and ats[i - 1] == 'hx' and ats[i] in ('hx', 'hb'):
+                    pass                 # `#x#y` is fine
+            if gs[0] == '\n\n' or gs[-1] == '\n\n':
+                ok = False               # a paragraph break at the edge is a plain line break for the boundary rules; keep the space small
+            if ok:
+                yield list(ats), list(gs)
+
+
+def markup_nodes(kt, ats, gs):
+    kids = []
+
+    def gap(g):
+        if g == '\n\n':
+            kids.append(Node(kt.k('Parbreak'), text=Str.lit(g)))
+        elif g:
+            kids.append(Node(kt.k('Space'), text=Str.lit(g)))
+    gap(gs[0])
+    for i, a in enumerate(ats):
+        if a == 'w':
+            kids.append(Node(kt.k('Text'), text=Str.lit('w%d' % i)))
+        elif a == 'hx':
+            kids += [Node(kt.k('Hash'), text=Str.lit('#')), Node(kt.k('Ident'), text=Str.lit('x%d' % i))]
+        else:
+            kids += [Node(kt.k('Hash'), text=Str.lit('#')), cblock_node(kt, ['a%d' % i, 'b%d' % i])]
+        gap(gs[i + 1])
+    return kids
+
+
+def content_call(kt, kids):
+    cb = Node(kt.k('ContentBlock'), children=[Node(kt.k('LeftBracket'), text=Str.lit('[')), Node(kt.k('Markup'), children=kids),
+                                              Node(kt.k('RightBracket'), text=Str.lit(']'))])
+    return Node(kt.k('FuncCall'), children=[Node(kt.k('Ident'), text=Str.lit('f')), Node(kt.k('Args'), children=[cb])])
+
+
+def relex_content(toks, kt):
+    """tokens of `f[ .. ]` -> tree of the second pass"""
+    if len(toks) < 3 or toks[0] != ('w', 'f') or toks[1] != ('w', '[') or toks[-1] != ('w', ']'):
+        return None
+    inner = toks[2:-1]
+    kids = []
+    ws = ''
+    q = 0
+
+    def flush():
+        nonlocal ws
+        if ws:
+            nls = ws.count('\n')
+            if nls >= 2:
+                kids.append(Node(kt.k('Parbreak'), text=Str.lit(ws)))
+            else:
+                kids.append(Node(kt.k('Space'), text=Str.lit(ws)))
+            ws = ''
+    while q < len(inner):
+        t = inner[q]
+        q += 1
+        if t in (('s',), ('nl',)):
+            ws += ' ' if t == ('s',) else '\n'
+            continue
+        flush()
+        w = t[1]
+        if w == '#':
+            kids.append(Node(kt.k('Hash'), text=Str.lit('#')))
+            if q >= len(inner):
+                return None
+            t2 = inner[q]
+            q += 1
+            if t2 == ('w', '{'):
+                names = []
+                semi = False
+                one_line = True
+                closed = False
+                while q < len(inner):
+                    t3 = inner[q]
+                    q += 1
+                    if t3 == ('w', '}'):
+                        closed = True
+                        break
+                    if t3 == ('nl',):
+                        one_line = False
+                    elif t3 == ('w', ';'):
+                        semi = True
+                    elif t3 != ('s',):
+                        names.append(t3[1])
+                if not closed or not names:
+                    return None
+                # `{` NL stmts NL `}`: the blanks next to the braces are line breaks as well
+                kids.append(cblock_node(kt, names, one_line=one_line, semi=semi, edge=' ' if one_line else '\n'))
+            elif t2[0] == 'w' and re.match(r'^[A-Za-z_]', t2[1]):
+                kids.append(Node(kt.k('Ident'), text=Str.lit(t2[1])))
+            else:
+                return None
+        elif re.match(r'^[A-Za-z_]', w):
+            kids.append(Node(kt.k('Text'), text=Str.lit(w)))
+        else:
+            return None
+    flush()
+    return content_call(kt, kids)
+
+
+def explore_content(S, max_atoms=2, atoms=M_ATOMS, gaps=M_GAPS):
+    kt = T.KT
+    core = S.core
+    f_attr = S.find_fn(core, 'AttrStore::new')
+    f_expr = S.find_fn(core, 'PrettyPrinter::convert_expr')
+    found = []
+    tasks = []
+    for n in range(1, max_atoms + 1):
+        for ats, gs in markup_sequences(n, atoms, gaps):
+            def body(ctx, ats=ats, gs=gs):
+                m = S.machine(core, STD, ctx)
+                m.max_depth = 200
+                root = content_call(kt, markup_nodes(kt, ats, gs))
+                cfg = Agg('Config', None, (2, z3.BitVec('cfg_width', 64), 2, False), pp.CFG_NAMES)
+                c0_ = pp.context(mode=0)        # the call follows a hash in markup; break suppression symbolic (a text line or not)
+
+                def describe(mdl):
+                    return dict(construct='content', atoms=list(ats), gaps=list(gs), suppressed=model_bool(mdl, c0_.get('break_suppressed')))
+
+                def convert(node):
+                    attrs = m.call_fn(f_attr, [node])
+                    pr, _ = pp.printer(m, cfg=cfg, attrs=attrs)
+                    return m.call_fn(f_expr, [pr, c0_, T.make_cast(m, node, 'Expr')])
+                try:
+                    d1 = convert(root)
+                except Panic as p:
+                    S.absorb(m)
+                    ctx.must_hold(False, 'C05:list-construct-panic', lambda mdl: dict(describe(mdl), panic=p.msg))
+                    return
+                for mode, pf in (('broken', False), ('flat-where-possible', True)):
+                    render.prefer_flat = pf
+                    at1 = []
+                    render(d1, False, at1)
+                    t1 = text_of(at1)
+                    if t1 is None:
+                        continue
+                    root2 = relex_content(t1, kt)
+                    if root2 is None:
+                        ctx.witness('output not read back (%s)' % mode)
+                        continue
+                    try:
+                        d2 = convert(root2)
+                    except Panic as p:
+                        ctx.must_hold(False, 'C05:list-construct-panic', lambda mdl, t1=t1: dict(describe(mdl), second_pass_input=show_tokens(t1), panic=p.msg))
+                        continue
+                    render.prefer_flat = pf
+                    at2 = []
+                    render(d2, False, at2)
+                    t2 = text_of(at2)
+                    ctx.must_hold(t2 == t1, 'C03:content-block-layout-is-not-a-fixed-point',
+                                  lambda mdl, t1=t1, t2=t2, mode=mode: dict(describe(mdl), layout=mode, first_pass=show_tokens(t1), second_pass=show_tokens(t2 or [])))
+                    ctx.witness('second pass run (%s)' % mode)
+                S.absorb(m)
+            name = 'twopass.content[%s]' % show(''.join(g + {'w': 'w', 'hx': '#x', 'hb': '#{a;b}'}[a] for g, a in zip(gs, ats)) + gs[-1])
+            tasks.append((name, 'two passes of the real printer over `f[..]` with markup %r / gaps %r' % (ats, gs), body, dict(atoms=n)))
+    for ob, viol in S.explore_batch(tasks):
+        for lab, mdl, info in viol:
+            found.append((lab, info))
+    return found
+
+
+def content_source(info):
+    s = info['gaps'][0]
+    for i, a in enumerate(info['atoms']):
+        s += {'w': 'w%d' % i, 'hx': '#x%d' % i, 'hb': '#{a%d; b%d}' % (i, i)}[a] + info['gaps'][i + 1]
+    return '#f[' + s + ']'
